@@ -57,7 +57,7 @@ Lemma plain_terminates : forall p s, plain p = true -> hook s = true ->
   exists fuel r, exec fuel p s = Some r.
 Proof.
   (* measure: (deadline + 2 - now) rounds of Forever, each of bounded size *)
-  induction p as [n| |a IHa b IHb|q IHq|q _| |e]; intros s Hp Hh; cbn [plain] in Hp; try discriminate.
+  induction p as [n| |a IHa b IHb|q IHq|q _|q _| |e]; intros s Hp Hh; cbn [plain] in Hp; try discriminate.
   - exists 1, (advance s n). reflexivity.
   - exists 1. eexists. reflexivity.
   - apply andb_true_iff in Hp. destruct Hp as [Ha Hb].
@@ -73,6 +73,7 @@ Proof.
       - destruct (exec f p s) as [[s'|s'|]|] eqn:E1; try discriminate; rewrite (IH _ _ _ E1 k); try exact E.
         destruct (Nat.ltb (now s) (now s')); [apply IH; exact E|].
         destruct (advance s' 1); try exact E. apply IH. exact E.
+      - destruct (exec f p s) as [[s'|s'|]|] eqn:E1; try discriminate; rewrite (IH _ _ _ E1 k); exact E.
       - destruct (exec f p s) as [[s'|s'|]|] eqn:E1; try discriminate; rewrite (IH _ _ _ E1 k); exact E. }
     rewrite (M _ _ _ _ E1 f2). rewrite Nat.add_comm. apply M. exact E2.
   - (* Forever: induction on the number of ticks left before the hook must fire *)
@@ -83,6 +84,7 @@ Proof.
       - destruct (exec f p s) as [[s'|s'|]|] eqn:E1; try discriminate; rewrite (IH _ _ _ E1 k); try exact E.
         destruct (Nat.ltb (now s) (now s')); [apply IH; exact E|].
         destruct (advance s' 1); try exact E. apply IH. exact E.
+      - destruct (exec f p s) as [[s'|s'|]|] eqn:E1; try discriminate; rewrite (IH _ _ _ E1 k); exact E.
       - destruct (exec f p s) as [[s'|s'|]|] eqn:E1; try discriminate; rewrite (IH _ _ _ E1 k); exact E. }
     remember (deadline s + 1 - now s) as left eqn:Hl.
     revert s Hh Hl. induction left as [left IHl] using lt_wf_ind. intros s Hh Hl.
@@ -126,6 +128,14 @@ Proof. intros d. eexists. cbn. reflexivity. Qed.
 (* a loop around pcall is never stopped: the model needs more fuel than any given amount *)
 Lemma forever_pcall_never_returns fuel : forall s, hook s = true ->
   exec fuel (Forever (Pcall Loop)) s = None.
+Proof. induction fuel as [|f IH]; intros s Hh; [reflexivity|]. cbn [exec].
+  destruct f as [|f']; [reflexivity|]. cbn [exec]. destruct f' as [|f'']; [reflexivity|]. cbn [exec]. rewrite Hh.
+  cbn [now]. destruct (Nat.ltb_spec (now s) (Nat.max (now s + 1) (deadline s + 1))); [|lia].
+  apply IH. reflexivity. Qed.
+
+(* a loop around a nested invocation is never stopped either *)
+Lemma forever_nested_never_returns fuel : forall s, hook s = true ->
+  exec fuel (Forever (Nested Loop)) s = None.
 Proof. induction fuel as [|f IH]; intros s Hh; [reflexivity|]. cbn [exec].
   destruct f as [|f']; [reflexivity|]. cbn [exec]. destruct f' as [|f'']; [reflexivity|]. cbn [exec]. rewrite Hh.
   cbn [now]. destruct (Nat.ltb_spec (now s) (Nat.max (now s + 1) (deadline s + 1))); [|lia].
